@@ -57,8 +57,8 @@ package signed256
 //@ func (*Int).SetFromDecimal
 //@   property C05
 //@   opt wide=272
-//@   ensures [accepts_exactly_optionally_signed_digits_in_range] (err == nil) == (len(s) > 0 && digitsFit(ite(s[0] == 43 || s[0] == 45, s[1:], s)))
-//@   ensures [value] err == nil ==> valOf(z.neg, leval(z.mag, 0, 4)) == ite(s[0] == 45, 0 - decVal(s[1:]), decVal(ite(s[0] == 43, s[1:], s)))
+//@   ensures [accepts_exactly_optionally_signed_digits_in_range] (err == nil) == (len(old(s)) > 0 && digitsFit(ite(old(s)[0] == 43 || old(s)[0] == 45, old(s)[1:], old(s))))
+//@   ensures [value] err == nil ==> valOf(z.neg, leval(z.mag, 0, 4)) == ite(old(s)[0] == 45, 0 - decVal(old(s)[1:]), decVal(ite(old(s)[0] == 43, old(s)[1:], old(s))))
 //@   ensures [normalised] err == nil ==> (z.neg ==> leval(z.mag, 0, 4) != 0)
 
 //@ func ParseDecimal
